@@ -29,6 +29,10 @@ OPTIONS = [[True, True], [False, True], [True, False], [False, False]]
 
 
 def bounds(tier):
+    return _bounds(tier) + "; late: updater created after k>=1 dispatches, shapes <=3 ops and (2,2), M<=2 up to renaming, 4 builders"
+
+
+def _bounds(tier):
     if tier == "quick":
         return ("4 graph builders x 4 option settings (remove machine / job nodes): ordered shapes <=3 jobs <=3 ops and (2,2),(2,1,1), all "
                 "assignments M<=2; flexible M<=2 on <=3 ops (default options); filter none and dominated (default options); M=3 (up to renaming) on <=4 ops; all histories")
